@@ -32,7 +32,7 @@ class DFSTraversePatch(Patch):
 
         if isinstance(raw, (int, float, str)):
             patch = self.patch_value(raw, origin)
-            return patch or raw
+            return raw if patch is None else patch
 
         interpreted = {}
 
